@@ -1,4 +1,4 @@
-from checks import rbc, codec, box
+from checks import rbc, codec, box, orch
 
 REGISTRY = {
     "C02": rbc.run,
@@ -6,6 +6,9 @@ REGISTRY = {
     "C04": rbc.run,
     "C13": codec.run,
     "C15": box.run,
+    "C06": orch.run,
+    "C11": orch.run,
+    "C12": orch.run,
 }
 
 RBC_NOTE = ("Trusted: Coq kernel + vm_compute; no axioms (Print Assumptions: closed under the global context). Premises in the "
@@ -44,7 +47,26 @@ META["C15"] = dict(engine="box", note=BOX_NOTE,
          "(inductive invariant); four upstream defects repaired (fix: commits) with their witnesses kept as _refuted theorems; "
          "model tied to the real Box by differential runs with bursts beyond each limit and idle periods.")
 
+ORCH_NOTE = ("Trusted: Coq kernel + vm_compute, no axioms. The session model is hand-written (one event = one external decision; "
+             "backends and ordinary synchronisers honour their context; goroutine scheduling inside a step is not modelled) and tied to "
+             "threshold/threshold.go on every run by histories executed on a real Scheme with scripted synchroniser/backend.")
+META["C06"] = dict(engine="orch", note=ORCH_NOTE,
+    text="Translation theorems (Init gets the sorted duplicate-free party ids, duplicates refused, source = party of the authenticated "
+         "sender, a p2p message goes to the unique participant representing the party) proved for every membership map and participant "
+         "list; three upstream defects repaired; tied to the code by session histories over identity/offset/permuted/replicated maps.")
+META["C11"] = dict(engine="orch", note=ORCH_NOTE + " The built-in DKG backends' own waits are covered by the full-stack fault runs of C05/C01.",
+    text="Proved on the session model for every history: cancellation makes the API call return from every state, no step panics, "
+         "failed preconditions / synchronisations / backend errors are returned at once, nothing stays registered; upstream defects "
+         "(dropped prepareSigning error, hung pre-signing failure, KeyGen continuing after timed-out waits) repaired; tied to the code by "
+         "histories with every cut point (before sync, at the gate, in the backend) cancelled.")
+META["C12"] = dict(engine="orch", note=ORCH_NOTE,
+    text="No-residue, re-admission, refusal of a concurrent same-topic session, traffic filtering and non-interference proved as an "
+         "inductive ownership invariant over arbitrary histories of KeyGen/Sign/cancel/late-continuation/inject; upstream residue defects "
+         "repaired; tied to the code by executing such histories on a real Scheme and comparing API results, table keys and reached instances.")
+
 ENGINES = {
+    "orch": dict(path="coq/theories/Orch + harness/core/orch.go + checks/orch.py", props=["C06", "C11", "C12"],
+                 kind="Coq model of session life cycle and id translation; Go harness drives a real Scheme with scripted sync/backend"),
     "box": dict(path="coq/theories/Box + harness/core/box.go + checks/box.py", props=["C15"],
                 kind="Coq model of msg.Box (sequential + lock-granular concurrent); Go harness drives the real Box"),
     "codec": dict(path="coq/theories/Wire + harness/core/codec.go + checks/codec.py", props=["C13"],
@@ -52,3 +74,83 @@ ENGINES = {
     "rbc": dict(path="coq/theories/RBC + harness/core/rbc.go + checks/rbc.py", props=["C02", "C03", "C04"],
                 kind="Coq model of rbc.Receiver behind threshold.Scheme dispatch; Go harness drives real instances"),
 }
+
+# ---- C19: tss-lib adapters (engine "adapters")
+from checks import adapters
+REGISTRY["C19"] = adapters.run
+META["C19"] = dict(engine="adapters",
+    note="Trusted: Coq kernel + vm_compute, no axioms. tss-lib v2.0.2 is not modelled: its routing is a table captured from real runs "
+         "(corpus/C19, re-captured and compared on every run) and what it signs is an arbitrary function in the digest theorems. The "
+         "classification tables, the constants of the round rule, the identifier bound and the presence/shape of the sender and digest "
+         "comparisons are extracted from mpc.go by tools/gen_adapters.py before every build (tables cross-checked against the compiled "
+         "package). The wire format carries no sender, so `claimedFrom != from` is checked as a rule (theorem over the extracted shape) and "
+         "through attribution of every queued message; protobuf, ed25519/ECDSA verification are not modelled.",
+    text="Theorems over the tables regenerated from the Go source: distinct broadcast-class types of a phase get distinct rounds, every "
+         "type tss-lib emitted in complete ECDSA/EdDSA key-generation and signing runs is classified as the library routed it and every "
+         "table key was emitted, broadcast URLs all have rounds, rounds are phase-relative 1..k < 128; the sender rule and the digest rule "
+         "as implications for the shapes extracted from OnMsg/Sign (EdDSA: for every behaviour of the library a signature comes back only "
+         "for the requested bytes; refuted for the pinned upstream code). Tied to the code by running the real adapters: full runs for "
+         "(3,1),(4,2) incl. boundary identifiers and signer subsets, ClassifyMsg vs routing flag on every message, OnMsg under a grid of "
+         "transport senders, malformed inputs, Sign on digests with leading zeros / odd lengths verified under the threshold key.")
+ENGINES["adapters"] = dict(path="tools/gen_adapters.py + coq/theories/Adapters + coq/theories/Corr/AdaptersCorr.v + harness/binance + checks/adapters.py",
+                           props=["C19"],
+                           kind="translator for the Go tables and rule shapes, Coq decision-rule model with finite-table theorems, Go harness "
+                                "running complete tss-lib sessions through the real adapters")
+
+# ---- C16 / C17: bundled TLS transport (engine "net")
+from checks import net as net_engine
+NET_NOTE = ("Trusted: Coq kernel + vm_compute, no axioms (Print Assumptions: closed under the global context). The models of "
+            "Handshake.Read/authenticateConnection/handleConn, remoteParty.send/readMsg and Send/enqueue/sendMessages are hand-written and "
+            "tied to net/net.go on every run by differential execution of the real functions (verif hooks + public API) on real TLS 1.3 "
+            "connections; maxBuffLen, MsgType constants and the shouldHaveTopic table are re-extracted from net.go before every build. "
+            "crypto/tls, encoding/asn1, pem, x509, ECDSA and SHA-256 are oracles (universally quantified in the theorems; their values per "
+            "case are computed by the harness with the standard library); sockets, real time and the Go scheduler are not modelled.")
+REGISTRY["C16"] = net_engine.run
+REGISTRY["C17"] = net_engine.run
+META["C16"] = dict(engine="net", note=NET_NOTE + " Premises in the statements: exporter values of distinct connections differ; a signature "
+                   "verifying under a key exists only if its holder signed that digest.",
+    text="Soundness of every attribution proved in Coq for all byte streams and all behaviours of the ASN.1/PEM/x509/ECDSA/SHA-256 oracles: "
+         "an attributed (domain, node) implies this connection's binding, a signature valid under the presented identity's ECDSA key over "
+         "the handshake re-encoded without signature, and a table entry for hash(domain, identity); corollaries for each mutation class "
+         "(unknown/substituted identity, wrong/missing/foreign signature, replay on another connection, other domain, non-ECDSA key, "
+         "malformed/truncated): never attributed, never a panic (two panics of the pinned code refuted and repaired); what reaches the "
+         "channel carries exactly the decided attribution. Tied to the code by a catalogue of ~1500 real handshakes per run (every field "
+         "altered/substituted/replayed, five key types, every truncation length, bit flips, whole connections, a scripted faulty peer "
+         "interleaved with honest loopback traffic) with an attribution monitor on the implementation.")
+META["C17"] = dict(engine="net", note=NET_NOTE,
+    text="Stream round trip proved in Coq for every list of legal frames with payloads 0..limit (any length of list, by induction), refusal "
+         "of every header above the limit with nothing delivered, totality of the reader on all byte strings, prefix-safety under "
+         "truncation at any byte; for the per-destination queue + single writer as a state machine over arbitrary operation lists: FIFO "
+         "exactly-once while the connection stays up, isolation between destinations, boundedness, no panic (the pinned panic on a full "
+         "queue refuted and repaired). Tied to the code by the real writer/reader on TLS connections (all type/topic combinations, sizes "
+         "0..limit+1, truncations, oversize and mis-shaped frames), queue operation sequences, concurrent senders and each peer in turn "
+         "down / stalled / garbling on real loopback TLS, each scenario in its own process with order/duplication/panic monitors.")
+ENGINES["net"] = dict(path="tools/gen_netconsts.py + coq/theories/Net + coq/theories/Corr/NetCorr.v + harness/net + checks/net.py",
+                      props=["C16", "C17"],
+                      kind="Coq models of the handshake decision (over oracles), the frame codec and the send queue; Go harness running the "
+                           "real transport on TLS connections (net.Pipe and loopback), scenarios isolated in child processes")
+
+# ---------------------------------------------------------------------------------------------- alg engine (C18)
+from checks import alg as alg_engine
+REGISTRY["C18"] = alg_engine.run
+META["C18"] = dict(engine="alg",
+    note="Trusted: Coq kernel + vm_compute, no axioms (Print Assumptions: closed under the global context for all nine theorems). "
+         "Premises in the statements: the evaluation points 1..n are pairwise different and non-zero in the field (n < char F; for Z/r: "
+         "n < r), the curve groups are modules over that field (prime-order groups), and for the integer-level theorem that the BN254 "
+         "group order r is prime (hypothesis 'prime p', not re-proved). The model of sss.go/choose.go (Z with explicit mod r, extended "
+         "Euclid inverse proved correct) is hand-written and tied to the Go code of mpc/bls and mpc/ps on every run by exact-integer "
+         "differential execution through verif hooks with a seeded reader; IBM/mathlib group arithmetic and pairing are exercised, not verified.",
+    text="Proved in Coq (MathComp) for every field, every n, every threshold, every polynomial and every list of >= t distinct parties: "
+         "Lagrange reconstruction as the Go code computes it returns the dealt secret; the same in the exponent for any module (aggregated "
+         "public keys = public key of the secret); chooseKoutOfN enumerates exactly the C(n,k) increasing k-subsets, each once (the model "
+         "mirrors recursion and pruning); the DKG cross-check accepts IF AND ONLY IF the n keys lie on one polynomial of degree < t, honest "
+         "keys are always accepted with the right threshold key, and a single key off the polynomial is rejected whichever party it belongs "
+         "to (t < n). A bridge theorem transfers reconstruction to the executable Z-model (integers mod r) the Go code is compared with. "
+         "Tie: all (n,t) up to 6 (10 thorough), all subsets, scripted edge polynomials and random ones, shares / Lagrange coefficients / "
+         "reconstructions / subset enumerations / number of distinct cross-check results compared as exact integers with the model for "
+         "both packages; group-level monitors on the real curve code (aggregate key = g2^secret, aggregated signatures verify, "
+         "assembleThresholdPublicKey accepts honest keys and rejects each single moved key).")
+ENGINES["alg"] = dict(path="coq/theories/Alg/{Lagrange,Choose,SSS,ZrModel,ZrBridge}.v + coq/theories/Corr/AlgCorr.v + harness/bls + checks/alg.py",
+                      props=["C18"],
+                      kind="MathComp theorems over an arbitrary field/module + executable Z-model of sss.go/choose.go; Go harness driving "
+                           "the real mpc/bls and mpc/ps functions (verif hooks, seeded reader, real BN254 groups)")
